@@ -127,15 +127,17 @@ func (r *Run) callOrder(label string, fn *ssa.Function, stages []string) {
 }
 
 // epochPipeline implements C02.1 / C09.1a.
-func (r *Run) epochPipeline() {
+func (r *Run) epochPipeline(full bool) {
 	p := r.P
 	seq := func(n string) *ssa.Function { return p.Func(PkgG, "SequentialPopulationEpochExecutor."+n) }
 	par := func(n string) *ssa.Function { return p.Func(PkgG, "ParallelPopulationEpochExecutor."+n) }
 	r.callOrder("sequential.NextEpoch", seq("NextEpoch"), []string{"prepareForReproduction", "reproduce", "finalizeReproduction"})
 	r.callOrder("prepare", seq("prepareForReproduction"), []string{"adjustFitness", "purgeZeroOffspringSpecies", "deltaCoding|giveBabiesToTheBest", "purgeOrganisms"})
-	r.callOrder("sequential.reproduce", seq("reproduce"), []string{"reproduce", "speciate"})
-	r.callOrder("finalize", seq("finalizeReproduction"), []string{"purgeOldGeneration", "purgeOrAgeSpecies"})
 	r.callOrder("parallel.NextEpoch", par("NextEpoch"), []string{"prepareForReproduction", "reproduce", "finalizeReproduction"})
+	if full {
+		r.callOrder("sequential.reproduce", seq("reproduce"), []string{"reproduce", "speciate"})
+		r.callOrder("finalize", seq("finalizeReproduction"), []string{"purgeOldGeneration", "purgeOrAgeSpecies"})
+	}
 	// adjustFitness for every species
 	prep := seq("prepareForReproduction")
 	tm := NewTermer(prep)
@@ -147,6 +149,9 @@ func (r *Run) epochPipeline() {
 		}
 	}
 	r.Check(okAll, "prepare.adjust-all", p.Pos(prep.Pos()), "fitness is adjusted for every species", "adjustFitness is not applied to every species of the population")
+	if !full {
+		return
+	}
 	// every species reproduces; the babies of all of them are speciated; the count is checked against PopSize
 	for _, ex := range []struct {
 		name string
@@ -946,11 +951,11 @@ func boolFieldCondTerm(tm *Termer, g Guard, term string, want bool) bool {
 // C02 — an epoch conserves population size and keeps species a partition.
 func C02(p *Prog, r *Run) {
 	r.Explanation = "Decided: (1) pipeline order of both executors by dominance (adjust fitness of every species, quotas and zero-quota purge, delta coding or stolen babies, purge of eliminated organisms, reproduction of every species, progeny-size check on the very list that is speciated, purge of the old generation, purge/ageing of species); (2) Species.reproduce delivers exactly one new organism per quota unit: counter 0,1,.. below ExpectedOffspring, the quota is not written meanwhile, the append of one NewOrganism result dominates every back edge, the loop ends only by exhaustion or an error; (3) conservation of the quotas, symbolically and per path: every path of the two redistribution loops of giveBabiesToTheBest changes quotas and pool by amounts that sum to zero (integer-linear expressions with versioned field loads), the remainder goes to the first species; delta coding assigns quotas that total PopSize and zeroes every other species; fraction carry, make-up offspring and the collapsed-average fallback have their documented shape; (4) partition: each speciated organism joins exactly one species with a matching back pointer or founds one with a fresh id; removal keeps the others in order; the old generation is removed from its species and from the master list, which is rebuilt from the non-empty species with genome ids 0,1,2,..; (5) ageing: Age+1 exactly for surviving non-novel species, novel species only lose their mark, nobody else writes Age. Not decided: that the floating-point quotas total the population size before the fix-up (numeric), so 'succeeds without error' is not decided as a whole."
-	r.Rule("C02.1", "pipeline order of an epoch, both executors", func() { r.epochPipeline() })
+	r.Rule("C02.1", "pipeline order of an epoch, both executors", func() { r.epochPipeline(true) })
 	r.Rule("C02.2", "a species delivers exactly one new organism per unit of its quota", func() { r.babiesPerQuota() })
 	r.Rule("C02.3", "quota redistribution conserves the total", func() { r.conservation() })
 	r.Rule("C02.4", "partition, membership bookkeeping and ageing", func() { r.partitionAndAgeing() })
-	r.Rule("C02.5", "marking for elimination stays inside the organism list for every survival threshold (shared with C09.2): parents = int(floor(thresh*n+1)), positions parents..n-1 of the best-first list", func() {
-		r.c09AdjustFitness()
+	r.Rule("C02.5", "marking for elimination stays inside the organism list for every survival threshold (shared with C09.2): the marking loop is bounded by the length of the list", func() {
+		r.c09AdjustFitness(true)
 	})
 }
